@@ -106,8 +106,26 @@ func C09(c *Ctx) {
 	name := FuncName(fn)
 	uid := c.P.ConstString("", "SessionKey")
 	last := c.P.ConstString("", "SessionLastAction")
-	tte := c.P.Func("ab/expire.timeToExpiry")
-	refresh := c.P.Func("ab/expire.refreshExpiry")
+	// the remaining-time computation: the unexported helper on the pinned tree, or
+	// the exported TimeToExpiry when the helper was folded into it
+	tteExported := c.P.Func("ab/expire.TimeToExpiry")
+	tte := c.role("ab/expire.timeToExpiry", func() *ssa.Function {
+		if len(CallsTo(tteExported, "time.Parse")) > 0 {
+			return tteExported
+		}
+		return c.calleeWith(tteExported, func(f *ssa.Function) bool { return len(CallsTo(f, "time.Parse")) > 0 })
+	})
+	refresh := c.role("ab/expire.refreshExpiry", func() *ssa.Function {
+		// whoever stamps last_action for the middleware
+		return c.calleeWith(fn, func(f *ssa.Function) bool {
+			for _, op := range c.StateOps(f) {
+				if op.Op == "put" && op.Store == "session" && op.Key == last {
+					return true
+				}
+			}
+			return false
+		})
+	})
 
 	// locate the decision: If on (timeToExpiry(...) == 0) under GetSession(uid) ok
 	var decide *ssa.If
@@ -122,7 +140,7 @@ func C09(c *Ctx) {
 		}
 		rel := Normalize(ifi.Cond, true)
 		call, _ := CallOf(rel.X)
-		if call == nil || StaticCallee(call) != tte {
+		if call == nil || (StaticCallee(call) != tte && StaticCallee(call) != tteExported) {
 			continue
 		}
 		n, isC := ConstInt(rel.Y)
